@@ -704,7 +704,9 @@ def handle (args : List String) (obs : String) : Option Reply := do
     if noRun then "trivial-norun" else
     s!"{r.ep}-{r.inS}{r.outS}-T{T}-" ++ (if r.isTest then "test" else if r.ss.isNone then "tune" else "collect") ++
       (if panicky then "-panic" else "") ++ (if r.skewGen + r.skewCall > 0 then "-skew" else "") ++ (if r.maxt.isSome then "-maxt" else "") ++ (if r.mint.isSome then "-mint" else "") ++
-      (if o.skipExt then "-sk" else "") ++ s!"-r{min out.rounds 9}"
+      (if o.skipExt then "-sk" else "") ++
+      (match r.cia with | some k => s!"-cia{k}" | none => if r.ic2 then "-ic2" else if r.ic ∧ r.hasInputs then "-ic1" else "") ++
+      (if r.zre then "-zre" else "") ++ (if r.lazy > 0 then "-lazy" else "") ++ s!"-r{min out.rounds 9}"
   some { model := model, verdict := verdict, tag := tag }
 
 end Driver.Bench
